@@ -5,7 +5,7 @@ Drivers
                 x hardening spellings: every field of the derived node, both text forms, the .pub suffix, public-parent
                 commutation from the last hardened ancestor, refusal of hardened-from-public, parse round trip
   C09.ranges    the range grammar through subkeys(): all strings of <= 2 components over a 7-symbol alphabet
-  C09.text      every network x bip32/49/84 x depth {0,1,255} x child number {0,2^31,2^32-1} x private/public:
+  C09.text      every network x bip32/49/84 x depth {0,1,127,128,255} (and the depth-256 child of every depth-255 node, whose text form cannot exist) x child number {0,2^31,2^32-1} x private/public:
                 deserialize -> fields, hwif -> reference text, parse -> same fields and class
   C09.cache     Mode S: every history of <= 3 subkey(i, is_hardened, as_private) calls on one node
   C09.electrum  Electrum v1 wallets: private/public commutation and reference equality
@@ -318,13 +318,13 @@ def groestl_missing():
 
 class Text(Driver):
     id = "C09.text"
-    rule = ("every network x every extended-key kind it defines x depth {0,1,255} x child number {0,2^31,2^32-1} x two key "
+    rule = ("every network x every extended-key kind it defines x depth {0,1,127,128,255} (and the depth-256 child of every depth-255 node, whose text form cannot exist) x child number {0,2^31,2^32-1} x two key "
             "materials x private/public: deserialize, hwif = reference Base58Check text, parse.<kind>/_prv/_pub reproduce "
             "every field and the node class; non-trivial = every case on a network whose hash function is installed")
 
     def __init__(self, tier, seed):
         Driver.__init__(self, tier, seed)
-        self.depths = (0, 1, 255)
+        self.depths = (0, 1, 127, 128, 255)
         self.children = (0, 2 ** 31, 2 ** 32 - 1)
         self.bound = dict(networks="all registered (%s)" % "see configurations", kinds=list(KINDS), depths=list(self.depths),
                           child_numbers=list(self.children), key_materials=["k=1, chain 00*32", "seed-selected"])
@@ -401,6 +401,22 @@ class Text(Driver):
                 expect_fields(kind, "parse.%s" % entry, back, nd, ver)
                 if back.hwif(as_private=case["private"]) != want:
                     raise Mismatch("reserialize", want, back.hwif(as_private=case["private"]), clause="parse")
+            if int(case["depth"]) == 255:
+                # one level deeper there is no one-byte depth: the text form must be refused, never wrap around
+                deeper = node.subkey(1)
+                n += 1
+                if deeper.tree_depth() != 256:
+                    raise Mismatch("depth-differs", "child of a depth-255 node has depth 256", repr(deeper.tree_depth()), clause="depth-overflow")
+                try:
+                    t256 = deeper.hwif(as_private=case["private"])
+                except Exception:
+                    t256 = None
+                if t256 is not None:
+                    with contextlib.redirect_stdout(io.StringIO()):
+                        back = getattr(net.parse, kind)(t256)
+                    got = None if back is None else back.tree_depth()
+                    raise Mismatch("depth-wraps", "text form of a depth-256 node is refused (or keeps depth 256)",
+                                   "hwif() = %s, which parses to depth %r" % (t256, got), clause="depth-overflow")
         except Mismatch as mm:
             return BAD(mm.cls, mm.ref, mm.impl, n=n, **mm.tags)
         except Exception as e:
